@@ -711,6 +711,35 @@ def run(ctx):
                 fk.append("encoding")
             else:
                 fk.append("%s(%s)" % (name, fmt(v)))
+    if fk[:1] == ["magic"] and len(fk) > 2 and fk != ["magic", "length-of-encoding", "encoding"]:
+        # encode() and encode_framed() share a private writer that was inlined into both: after the magic and a length word equal to
+        # self.encoded_size() (which encode() asserts to be the length of what it writes) come exactly the writes of encode(), in its order
+        selfp_f = ("param", ef.path, 1)
+        fk2 = []
+        for (_, name, a, b) in [x for x in fe if x[1] not in ("reserve", "reserve_exact")][1:]:
+            name, v0 = norm_append(W, name, a)
+            v = W.expand(v0) if v0 is not None else None
+            if name == "u32":
+                u = uncast(v)
+                if is_call(u) and u[1].endswith("RtMessage::encoded_size") and u[2] and u[2][0] == selfp_f:
+                    fk2.append("length=encoded_size")
+                elif isinstance(u, tuple) and u and u[0] == "len" and u[1] == ("field", selfp_f, "tags"):
+                    fk2.append("count")
+                else:
+                    fk2.append("offset")
+            elif name == "bytes":
+                ie = iter_elem(W, v) if v else None
+                if is_call(v, "Tag::wire_value"):
+                    fk2.append("tag")
+                elif ie and ie["container"] == ("field", selfp_f, "values"):
+                    fk2.append("value")
+                else:
+                    fk2.append("write:" + fmt(v)[:60])
+            else:
+                fk2.append(name)
+        asserts_len = any(t2["k"] == "call" and "assert_failed" in str(t2["fn"].get("path", "")) for t2 in (bl.term for bl in enc.blocks))
+        if fk2 == ["length=encoded_size"] + kinds and kinds == ["count", "offset", "tag", "value"] and asserts_len:
+            fk = ["magic", "length-of-encoding", "encoding"]
     ctx.check("framing", "encode_framed/magic-length-body", fk == ["magic", "length-of-encoding", "encoding"], "frame = magic, u32 LE len(encoding), encoding",
               "encode_framed writes %s" % fk, ctx.loc(ef))
     # request.rs mirror
@@ -734,6 +763,15 @@ def run(ctx):
     okm = False
     if is_call(r) and callee_name(r[1]) in ("eq", "ne"):
         a, b = r[2]
+
+        def unopt(x):
+            # `buf.get(..8) == Some(MAGIC)`: the checked form of `buf[..8] == MAGIC` (None, i.e. a shorter buffer, compares unequal)
+            x0 = values.strip_payload(x)
+            if is_call(x0) and strip_generics(x0[1]).endswith("slice::get") and len(x0[2]) == 2 and isinstance(x0[2][1], tuple) and x0[2][1][0] == "agg":
+                return ("index", x0[2][0], x0[2][1])
+            return x0
+        if any(is_call(values.strip_payload(x)) and strip_generics(values.strip_payload(x)[1]).endswith("slice::get") for x in (a, b)):
+            a, b = unopt(a), unopt(b)
         sl, c = (a, b) if a[0] == "index" else (b, a)
         okm = sl[0] == "index" and sl[1] == ("param", irr.path, 1) and sl[2][0] == "agg" and c == ("bytes", magic) and \
             (sl[2][2] == (("int", 0), ("int", len(magic))) or (str(sl[2][1]).endswith("RangeTo::RangeTo") and sl[2][2] == (("int", len(magic)),)))
@@ -748,6 +786,12 @@ def run(ctx):
         if t["fn"].get("trait") == "core::ops::index::Index":
             a = nev.call_args(bb)
             if a[0] == ("param", nrr.path, 1) and a[1][0] == "agg":
+                # a slice that is only the operand of a split (`buf[8..].split_first_chunk::<4>()`) is not consumed itself: its two parts are,
+                # and they are collected below as what the length read and the decoder get
+                me = nev.call_term(bb)
+                users = [callee_name(t2["fn"].get("path", "")) for b2, t2 in nrr.calls() if b2 != bb and any(values.strip_payload(x) == me for x in nev.call_args(b2))]
+                if users and all(u in ("split_first_chunk", "split_at", "split_at_checked", "split_first", "split_last_chunk") for u in users):
+                    continue
                 slices.append((str(a[1][1]).split("::")[-1], tuple(x[1] if x[0] == "int" else None for x in a[1][2])))
     from lib import le_u32_source
     for bb, t in nrr.calls():
